@@ -97,4 +97,23 @@ def gen():
     if not m or "w.write_all(&[lenasu8])?;" not in wb or "w.write_all(&i.to_le_bytes())?;" not in wb:
         raise F.FactError("write_u32_array is no longer `reject len > n; count byte; LE u32 each`")
     out.append("Definition WID_MAX_GROUP : N := %s.\n" % F.coq_int(int(m.group(1))))
+    # ---- nobody between the tokenizer and the double array shortens the text handed to lookup: the traversal runs to the end
+    #      of the input (TrieEntryIter::next: `for i in self.offset..self.data.len()`), so there is no maximum key length
+    def body(rel, name, text=None):
+        t0 = text if text is not None else F.strip_comments(F.src(rel))
+        return _norm(F.fn_body(t0, name, rel))
+    ok = True
+    cpi = body(REL, "common_prefix_iterator", t)
+    ok = ok and "data:input," in cpi and re.search(r"\boffset,", cpi) is not None and "min(" not in cpi and "input[" not in cpi
+    lx = body("sudachi/src/dic/lexicon/mod.rs", "lookup")
+    ok = ok and "self.trie.common_prefix_iterator(input,offset)" in lx and "min(" not in lx and "input[" not in lx
+    ls = body("sudachi/src/dic/lexicon_set.rs", "lookup")
+    ok = ok and "l.lookup(input,offset)" in ls and "min(" not in ls and "input[" not in ls
+    st = F.strip_comments(F.src("sudachi/src/analysis/stateful_tokenizer.rs"))
+    mm = re.search(r"impl<'a>\s*LatticeBuilder<'a>\s*\{(.*)", st, flags=re.S)
+    bl = _norm(F.fn_body(mm.group(1), "build_lattice", "stateful_tokenizer.rs")) if mm else ""
+    ok = ok and "letinput_bytes=self.input.current().as_bytes();" in bl and "self.lexicon.lookup(input_bytes,byte_off)" in bl and "input_bytes[" not in bl
+    ml = body("sudachi/src/analysis/mlist.rs", "lookup")
+    ok = ok and "lex.lookup(query.as_bytes(),0)" in ml
+    out.append("Definition lookup_input_untruncated : bool := %s.\n" % ("true" if ok else "false"))
     return "".join(out)
